@@ -235,7 +235,10 @@ def run(ctx):
             t_end = dt * (n - 1) + (dt if p["lay"] != "clip" else dt / 4)
             tss = {"grid": [dt * k for k in range(n)] + [t_end], "inner": [0.0, dt / 2, t_end - dt / 8, t_end],
                    "clip": [0.0, t_end]}[p["lay"]]
-            inner = torchsde.BrownianInterval(t0=0.0, t1=t_end, size=(B, m), dtype=S.DT, entropy=seed,
+            # the time origin rotates (all exact): at zero, far right of zero relative to the step, left of zero
+            org = [0.0, 16384.0, 0.0, -4096.0][(idx + scale_up) % 4]
+            tss = [org + t for t in tss]
+            inner = torchsde.BrownianInterval(t0=tss[0], t1=tss[-1], size=(B, m), dtype=S.DT, entropy=seed,
                                               levy_area_approximation=S.levy_for(p["method"]))
             record = {}
             replay = dict(key=key, smooth=dict(seed=seed, d=d, m=m, ts=tss, dt=dt))
